@@ -701,11 +701,13 @@ def _route_ties(ctx):
 def _bufs(rng, g1, g2, mode):
     low = g1["type"] in LOW_DIM or g2["type"] in LOW_DIM
     if mode == "grid":
-        pool = [("1/4", "1/2"), ("1/2", "1"), ("1/8", "1/4"), ("1", "1/2")]
+        # time buffers above one second too: the shapely pipeline works in a space scaled by 1/buffer, where a
+        # quantity read before scaling back is only wrong once the factor is below 1 (seeded C06-4)
+        pool = [("1/4", "1/2"), ("1/2", "1"), ("1/8", "1/4"), ("1", "1/2"), ("2", "1"), ("4", "2"), ("1/2", "2"), ("2", "4")]
         if not low:
             pool += [("0", "0"), ("0", "1/2")]
         return rng.choice(pool)
-    pool = [(rat(0.01), rat(100.0)), (rat(0.05), rat(33.3)), ("1/8", "1/2")]
+    pool = [(rat(0.01), rat(100.0)), (rat(0.05), rat(33.3)), ("1/8", "1/2"), (rat(1.5), rat(250.0)), (rat(3.0), rat(0.5))]
     if not low:
         pool.append(("0", "0"))
     return rng.choice(pool)
